@@ -135,10 +135,11 @@ func c18HostIP(i, ngroups int) string {
 // c18FamilySpecs: the small universe. Peer addresses in several textual families; the code keys
 // connectionCount / banned by the host part of sp.Addr() as text, so each distinct text is a host
 // of its own for the model:
-//   IPv4 (two hosts in one /16, one in another, one RFC1918), routable IPv6 in lower and in upper
-//   case (an outbound peer keeps the text it was dialled with; an inbound one gets the canonical
-//   text of its socket address), IPv6 link-local with two different zones, IPv4-mapped IPv6
-//   (inbound: canonical dotted quad).
+//
+//	IPv4 (two hosts in one /16, one in another, one RFC1918), routable IPv6 in lower and in upper
+//	case (an outbound peer keeps the text it was dialled with; an inbound one gets the canonical
+//	text of its socket address), IPv6 link-local with two different zones, IPv4-mapped IPv6
+//	(inbound: canonical dotted quad).
 var c18FamilySpecs = []string{"50.1.1.7", "51.1.1.7", "50.1.2.7", "10.0.0.9", "2a01:4f8::1", "2A01:4F8::1", "fe80::1%eth0", "fe80::1%lo", "::ffff:52.1.1.7"}
 
 // c18SpecTCP is the socket address of an inbound connection from `spec`.
